@@ -267,7 +267,7 @@ def case_strategy(tier):
             else:
                 out.append(k)
         return out
-    keys2 = st.builds(pairify, keys, st.lists(st.booleans(), max_size=7), st.lists(keytext, min_size=1, max_size=5))
+    keys2 = st.builds(pairify, keys, st.lists(st.booleans(), max_size=7), st.lists(st.one_of(keytext, st.just(""), st.just(b"")), min_size=1, max_size=5))
     script = st.lists(st.fixed_dictionaries({"i": st.integers(0, 60), "op": st.sampled_from(
         ["incr", "decr", "touch", "gat", "gats", "append", "prepend", "replace", "add", "cas", "delete", "get"])}), max_size=12)
     dups = st.lists(st.tuples(st.sampled_from(["dup\x7fkey", "d\x7f2", "\x7fx"]), st.lists(st.sampled_from(["tenant-a", "tenant-b", "sk3", "sk4", "zz"]), min_size=2, max_size=4, unique=True)).map(list),
@@ -282,7 +282,7 @@ def grid_cases(tier, seed):
         for pooling in (False, True):
             keys = ["key%d" % (i * 7 + seed) for i in range(50)]
             keys = [k.encode() if i % 3 == 0 else k for i, k in enumerate(keys)]
-            keys = [("sk%d" % (i % 4), k) if i % 5 == 0 else k for i, k in enumerate(keys)]
+            keys = [(("sk%d" % (i % 4)) if i % 15 else "", k) if i % 5 == 0 else k for i, k in enumerate(keys)]
             yield {"addrs": SERVER_POOL[:n - 1] + [SERVER_POOL[-1]], "pooling": pooling, "prefix": b"g:" if n % 2 else b"",
                    "keys": keys, "script": [{"i": i, "op": op} for i, op in enumerate(
                        ["incr", "touch", "gat", "append", "cas", "delete", "add", "decr", "gats", "prepend", "replace", "get"])],
